@@ -146,6 +146,20 @@ func (v *c05) OnStep(x *Ctx, s *St, op Op, post *pf.GameState) string {
 			return ""
 		}
 	}
+	// a round closed without ever having been opened (nobody was asked to act)
+	if post.Status.CurrentEvent == "RoundClosed" && pre.Status.CurrentEvent != "RoundStarted" && pre.Status.CurrentEvent != "RoundClosed" && alive(post) >= 2 {
+		x.Run.Count("round_closings_checked", 1)
+		for _, p := range post.Players {
+			if p.Fold || p.StackSize == 0 {
+				continue
+			}
+			if p.Wager != post.Status.CurrentWager {
+				x.Violate("closed-with-unmatched-wager", fmt.Sprintf("the %s round was closed without betting while seat %d (with chips) has put in less than the wager to match", post.Status.Round, p.Idx), fmt.Sprint(post.Status.CurrentWager), fmt.Sprint(p.Wager), op)
+			} else if post.Status.CurrentWager > 0 {
+				x.Violate("closed-before-turn", fmt.Sprintf("the %s round was closed without betting although seat %d (with chips) has had no turn since the wager went up to %d", post.Status.Round, p.Idx, post.Status.CurrentWager), "a turn", "none", op)
+			}
+		}
+	}
 	if op.Kind == "Next" && pre.Status.CurrentEvent == "RoundClosed" {
 		if alive(pre) == 1 {
 			x.Run.Count("early_endings_checked", 1)
